@@ -116,13 +116,18 @@ def handlers : List (String × Handler) := [
     | _ => "err args")
   ,
   -- the decidable hypotheses of the C13 theorems on one tree (as the constructors leave it):
-  -- wfTree, freeTree, then opRegion for the four container spellings
+  -- wfTree, freeTree, opRegion for the four container spellings, why outside (Any member, optional member
+  -- of a container-union, container-union of Nones; typing container names), rootOK typing/operator
   ("types.region", fun
     | [t] => match dt? t with
       | some t =>
         let t := t.init
         "ok " ++ b01 (Dcg.Model.HintExpr.wfTree t) ++ " " ++ b01 (Dcg.Proofs.Types.freeTree t) ++ " " ++
-          String.join (Dcg.Model.HintExpr.containerSpellings.map (fun o => b01 (Dcg.Model.HintExpr.opRegion o t)))
+          String.join (Dcg.Model.HintExpr.containerSpellings.map (fun o => b01 (Dcg.Model.HintExpr.opRegion o t))) ++ " " ++
+          (let w := Dcg.Model.HintExpr.whyOutside {} t; b01 w.1 ++ b01 w.2.1 ++ b01 w.2.2) ++ " " ++
+          -- none_once per spelling: rootOK of the structural rendering, typing then operator
+          b01 (Dcg.Model.HintExpr.rootOK (Dcg.Model.HintExpr.hintE {} t).1) ++
+          b01 (Dcg.Model.HintExpr.rootOK (Dcg.Model.HintExpr.hintE { unionOp := true } t).1)
       | none => "err args"
     | _ => "err args")
 ]
